@@ -153,7 +153,17 @@ func workloads() []workload {
 				Context: types.NewRecord(types.RecordMap{"a": batch.Variable("x")}), Variables: batch.Variables{}}, cb)
 			e2 := batch.Authorize(context.Background(), ps, ents, batch.Request{Principal: req.Principal, Action: req.Action, Resource: req.Resource, Context: req.Context,
 				Variables: batch.Variables{"u1": {types.Long(1)}, "u2": {types.Long(1)}, "u3": {types.Long(2)}}}, cb)
-			return fmt.Sprint(e1, " / ", e2), nil
+			// two variables with equally many values, each with an ill-typed value at the end: which
+			// results are delivered before the error, and which error it is
+			var got []string
+			e3 := batch.Authorize(context.Background(), ps, ents, batch.Request{Principal: batch.Variable("p"), Action: req.Action, Resource: batch.Variable("r"), Context: req.Context,
+				Variables: batch.Variables{"p": {types.NewEntityUID("U", "alice"), types.Long(5)}, "r": {types.NewEntityUID("G", "g1"), types.Long(6)}}},
+				func(r batch.Result) error {
+					got = append(got, fmt.Sprintf("%v %v -> %v", r.Request.Principal, r.Request.Resource, r.Decision))
+					return nil
+				})
+			sort.Strings(got)
+			return fmt.Sprint(e1, " / ", e2, " / ", e3, got), nil
 		}},
 		{"authorize-over-multi-parent-hierarchies", func() (string, error) {
 			// several small hierarchies in which nodes have two or more parents (diamonds, a
